@@ -192,7 +192,10 @@ func (f *OrefaFile) Read(b []byte) (n int, err error) {
 	}
 
 	nd.mu.RLock()
-	n = copy(b, nd.data[f.at:])
+	// An offset at or beyond the end of the file reads nothing (io.EOF).
+	if f.at < int64(len(nd.data)) {
+		n = copy(b, nd.data[f.at:])
+	}
 	nd.mu.RUnlock()
 
 	f.at += int64(n)
@@ -626,6 +629,16 @@ func (f *OrefaFile) Write(b []byte) (n int, err error) {
 	}
 
 	nd.mu.Lock()
+
+	// In append mode every write lands at the current end of the file.
+	if f.openMode&avfs.OpenAppend != 0 {
+		f.at = int64(len(nd.data))
+	}
+
+	// Writing beyond the end of the file leaves a zero-filled gap.
+	if gap := f.at - int64(len(nd.data)); gap > 0 {
+		nd.data = append(nd.data, make([]byte, gap)...)
+	}
 
 	n = copy(nd.data[f.at:], b)
 	if n < len(b) {
